@@ -170,6 +170,7 @@ func cmdDump(args []string) int {
 		fmt.Fprintln(os.Stderr, err)
 		return 2
 	}
+	resolveClosureAliases(l, cs)
 	fmt.Printf("loaded in %.1fs\n", l.loadS)
 	var results []*FuncResult
 	var keys []string
@@ -221,4 +222,82 @@ func cmdDump(args []string) int {
 	}
 	_ = filepath.Join
 	return 0
+}
+
+// closureAlias: a renumbering-proof key for an anonymous function: the outermost named parent
+// plus the sorted names of its captured variables, e.g. `(*TaskQueue).Start$[q,t,taskRes]`.
+func closureAlias(fn *ssa.Function) string {
+	if fn.Parent() == nil {
+		return ""
+	}
+	root := fn
+	for root.Parent() != nil {
+		root = root.Parent()
+	}
+	if root.Pkg == nil {
+		return ""
+	}
+	var names []string
+	for _, fv := range fn.FreeVars {
+		names = append(names, fv.Name())
+	}
+	sort.Strings(names)
+	return root.Pkg.Pkg.Path() + "::" + root.RelString(root.Pkg.Pkg) + "$[" + strings.Join(names, ",") + "]"
+}
+
+// resolveClosureAliases makes contracts written against a closure alias apply to the closure
+// that currently matches it (if exactly one does).
+func resolveClosureAliases(l *Loaded, cs *Contracts) {
+	byAlias := map[string][]*ssa.Function{}
+	for _, fn := range l.funcs {
+		if a := closureAlias(fn); a != "" {
+			byAlias[a] = append(byAlias[a], fn)
+		}
+	}
+	for a, fns := range byAlias {
+		fc := cs.Funcs[a]
+		if fc == nil {
+			continue
+		}
+		if len(fns) > 1 {
+			// several closures capture the same variables: prefer the one with as many loops as
+			// the contract names
+			want := 0
+			for k := range fc.Loops {
+				if k > want {
+					want = k
+				}
+			}
+			var match []*ssa.Function
+			for _, fn := range fns {
+				n := 0
+				for _, b := range fn.Blocks {
+					for _, sc := range b.Succs {
+						if sc.Dominates(b) && sc != b || (sc == b) {
+							n++
+							break
+						}
+					}
+				}
+				// count loop headers properly
+				hs := map[*ssa.BasicBlock]bool{}
+				for _, b := range fn.Blocks {
+					for _, sc := range b.Succs {
+						if sc.Dominates(b) {
+							hs[sc] = true
+						}
+					}
+				}
+				if len(hs) == want {
+					match = append(match, fn)
+				}
+			}
+			fns = match
+		}
+		if len(fns) != 1 {
+			continue
+		}
+		l.funcs[a] = fns[0]
+		cs.Funcs[contractKeyOf(fns[0])] = fc
+	}
 }
